@@ -18,6 +18,9 @@ A case is [op, args...] (see run_C19 in coq/Model/C19_Run.v):
                                                           with switches of the dynamic sheets
   18 vt100       [18, [[depth, attrs]...]]                ONE Vt100_Output: set_attributes(attrs, depth) in sequence,
                                                           the text written by each call
+  19 nested      [19, pool, inner, objects, events]       dynamic styles whose sheet is a persistent merged/dynamic
+                                                          object (Model/C19_Nested.v): switches of inner and outer
+                                                          slots, look-ups on outer and inner objects
   20 transform   [20, tree, attrs]                        as 15 on the REAL float kernels (Model/C19_Float.v: colorsys
                                                           over binary64 floats); per-node brightness bounds
   21 kernels     [21, mn, mx, r, g, b]                    get_opposite_color / AdjustBrightness(mn/1000, mx/1000) on
@@ -35,7 +38,7 @@ FLOAT_PROPS = "Proofs/C19_FloatProps.v"
 OPN = {1: "cascade", 2: "escape-code", 3: "sgr-decode", 4: "ansi-text", 5: "map256", 6: "map16",
        7: "int16", 8: "parse_color", 9: "parse_style_str", 10: "expand_classname", 11: "split",
        12: "int-format", 13: "end-to-end", 14: "from_dict", 15: "transform", 16: "cache-history", 17: "merged-dynamic",
-       18: "vt100-history", 20: "transform-real", 21: "float-kernels", 22: "float-plane"}
+       18: "vt100-history", 19: "nested-dynamic", 20: "transform-real", 21: "float-kernels", 22: "float-plane"}
 DEPTHS = {1: "DEPTH_1_BIT", 4: "DEPTH_4_BIT", 8: "DEPTH_8_BIT", 24: "DEPTH_24_BIT"}
 FIELDS = ("color", "bgcolor", "bold", "underline", "strike", "italic", "blink", "reverse", "hidden")
 HEX = "0123456789abcdefABCDEF"
@@ -186,6 +189,8 @@ def impl_run(case):
         return [0, enc_attrs(t.transform_attrs(dec_attrs(case[2])))]
     if op == 18:
         return run_vt100_history(case[1])
+    if op == 19:
+        return run_nested_events(case, fresh=False)
     if op == 21:
         return run_kernels(*case[1:])
     if op == 22:
@@ -230,6 +235,68 @@ def run_merged_events(case, fresh):
         else:
             o = build(objs[e[1]]) if fresh else built[e[1]]
             out.append([5, [[S(n), S(x)] for n, x in o.style_rules]])
+    return out
+
+
+def run_nested_events(case, fresh):
+    """op 19.  fresh=False: inner and outer objects are built once and keep their caches;
+    fresh=True: every look-up is answered by objects ALL built anew (inner ones too)"""
+    from prompt_toolkit.styles import DummyStyle, DynamicStyle
+    P = pt()
+    _, pool, inner, objs, events = case
+    sheets = {i: P["Style"]([(unS(n), unS(x)) for n, x in rules]) for i, rules in pool}
+    cur0, cur1 = {}, {}
+
+    def build0(x):
+        if x[0] == 0:
+            return sheets[x[1]]
+        if x[0] == 1:
+            return DummyStyle()
+        if x[0] == 2:
+            return DynamicStyle(lambda slot=x[1]: cur0.get(slot))
+        return P["merge_styles"]([build0(y) for y in x[1]])
+
+    def make(fresh_inner):
+        inner_built = [build0(o) for o in inner]
+
+        def resolve(slot):
+            tg = cur1.get(slot)
+            if not tg:
+                return None
+            if tg[0] == 0:
+                return sheets[tg[1]]
+            return inner_built[tg[1]] if tg[1] < len(inner_built) else None
+
+        def build1(x):
+            if x[0] == 0:
+                return sheets[x[1]]
+            if x[0] == 1:
+                return DummyStyle()
+            if x[0] == 2:
+                return DynamicStyle(lambda slot=x[1]: resolve(slot))
+            return P["merge_styles"]([build1(y) for y in x[1]])
+        return inner_built, [build1(o) for o in objs]
+    inner_built, outer_built = make(False)
+    out = []
+    for e in events:
+        if e[0] == 0:
+            cur0[e[1]] = sheets[e[2][0]] if e[2] else None
+            out.append([])
+            continue
+        if e[0] == 3:
+            cur1[e[1]] = list(e[2]) if e[2] else None
+            out.append([])
+            continue
+        ib, ob = make(True) if fresh else (inner_built, outer_built)
+        try:
+            if e[0] == 1:
+                out.append([0, enc_attrs(ob[e[1]].get_attrs_for_style_str(unS(e[2])))])
+            elif e[0] == 4:
+                out.append([0, enc_attrs(ib[e[1]].get_attrs_for_style_str(unS(e[2])))])
+            else:
+                out.append([5, [[S(n), S(x)] for n, x in ob[e[1]].style_rules]])
+        except Exception as ex:  # noqa
+            out.append(_exc(ex))
     return out
 
 
@@ -960,6 +1027,56 @@ def oracle(case, res):
                     k, case[1][k], unS(x) if case[1][k][0] == 0 else x, unS(y) if case[1][k][0] == 0 else y, k),
                     {"op": "cache-history", "family": "cache"})
         return None
+    if op == 19:
+        _, pool, inner, objs, events = case
+        if not (isinstance(res, list) and len(res) == len(events)):
+            return ("event history raised %r" % (res,), {"op": "nested-dynamic", "family": "raise"})
+        rules_of = {i: [(unS(n), unS(x)) for n, x in r] for i, r in pool}
+        c0, c1 = {}, {}
+
+        def now0(x):
+            """(is a real sheet?, current rules) of an inner object"""
+            if x[0] == 0:
+                return True, rules_of[x[1]]
+            if x[0] == 1:
+                return False, []
+            if x[0] == 2:
+                return (True, rules_of[c0[x[1]]]) if c0.get(x[1]) is not None else (False, [])
+            return True, [r for y in x[1] for r in now0(y)[1]]
+
+        def now1(x):
+            if x[0] == 0:
+                return True, rules_of[x[1]]
+            if x[0] == 1:
+                return False, []
+            if x[0] == 2:
+                tg = c1.get(x[1])
+                if not tg:
+                    return False, []
+                if tg[0] == 0:
+                    return True, rules_of[tg[1]]
+                return now0(inner[tg[1]])
+            return True, [r for y in x[1] for r in now1(y)[1]]
+        for k, (e, got) in enumerate(zip(events, res)):
+            if e[0] == 0:
+                c0[e[1]] = e[2][0] if e[2] else None
+                continue
+            if e[0] == 3:
+                c1[e[1]] = list(e[2]) if e[2] else None
+                continue
+            sheet, want_rules = now0(inner[e[1]]) if e[0] == 4 else now1(objs[e[1]])
+            if e[0] == 2:
+                if got != [5, [[S(n), S(x)] for n, x in want_rules]]:
+                    return ("event %d: style_rules is not the concatenation of the current sheets' rules %r" % (k, want_rules),
+                            {"op": "nested-dynamic", "family": "style_rules"})
+                continue
+            ref = impl_case([1, 0, [[rule_sx(r) for r in want_rules]], e[2], DEFAULT_SX]) if sheet else [0, DEFAULT_SX]
+            if sx_norm(got) != sx_norm(ref):
+                return ("event %d: look-up %r on %s object %d gives %r; one sheet with the current rules %r gives %r (after %d earlier events)" % (
+                    k, unS(e[2]), "inner" if e[0] == 4 else "outer", e[1], tuple(dec_attrs(got[1])) if got and got[0] == 0 else got,
+                    want_rules, tuple(dec_attrs(ref[1])) if ref and ref[0] == 0 else ref, k),
+                    {"op": "nested-dynamic", "family": "stale-nested"})
+        return None
     if op == 17:
         _, pool, objs, events = case
         if not (isinstance(res, list) and len(res) == len(events)):
@@ -1675,6 +1792,57 @@ def gen_merged_dynamic(chk, dist):
     return cases
 
 
+def gen_nested(chk, dist):
+    """op 19: outer objects whose dynamic slots return persistent inner merged / dynamic objects"""
+    rng = chk.rng
+    thorough = chk.tier == "thorough"
+    rule_opts = [(n, st) for n in ["a", "b", "a b", "", "a.b"] for st in STYLES_SMALL + ["#0000ff nobold strike", "underline"]]
+    strs = ["class:a", "class:b", "class:a class:b", "", "class:b class:a bold", "italic"]
+
+    def pool(n):
+        return [[i, [rule_sx(rng.choice(rule_opts)) for _ in range(rng.randint(0, 3))]] for i in range(n)]
+    inner_shapes = [[3, [[0, 1], [2, 0]]], [2, 0], [3, [[2, 0], [2, 1]]], [1], [0, 2], [3, [[3, [[2, 1], [0, 0]]], [1]]], [3, []]]
+    outer_shapes = [[2, 0], [3, [[0, 0], [2, 0]]], [3, [[2, 0], [2, 1]]], [3, [[2, 0], [0, 3], [2, 0]]], [3, [[3, [[2, 1]]], [1], [2, 0]]], [0, 4]]
+    cases = []
+
+    def tgt(t):
+        return [] if t is None else list(t)
+    # systematic: outer slot 0 -> inner object; look-up, switch the INNER slot, look-up again (outer and inner
+    # caches must both follow), switch the outer slot to another object / a sheet / None, and back
+    for ish in inner_shapes:
+        for osh in outer_shapes:
+            for _ in range(4 if thorough else 1):
+                p = pool(5)
+                inner = [ish, rng.choice(inner_shapes)]
+                for st in strs[:3]:
+                    ev = [[0, 0, [2]], [0, 1, [3]], [3, 0, [1, 0]], [3, 1, [0, 4]], [1, 0, S(st)], [4, 0, S(st)], [2, 0],
+                          [0, 0, [3]], [1, 0, S(st)], [4, 0, S(st)], [2, 0],
+                          [3, 0, [1, 1]], [1, 0, S(st)], [3, 0, [1, 0]], [0, 0, []], [1, 0, S(st)], [4, 0, S(st)],
+                          [3, 0, []], [1, 0, S(st)], [3, 0, [0, 1]], [1, 0, S(st)], [3, 0, [1, 0]], [0, 0, [2]], [1, 0, S(st)], [2, 0]]
+                    cases.append([19, p, inner, [osh], ev])
+    for _ in range(5000 if thorough else 600):
+        p = pool(5)
+        inner = [rng.choice(inner_shapes) for _ in range(rng.randint(1, 3))]
+        objs = [rng.choice(outer_shapes) for _ in range(rng.randint(1, 3))]
+        ev = []
+        for _k in range(rng.randint(3, 12)):
+            r = rng.random()
+            if r < 0.2:
+                ev.append([0, rng.randint(0, 1), [rng.randint(0, 4)] if rng.random() < 0.85 else []])
+            elif r < 0.45:
+                q = rng.random()
+                ev.append([3, rng.randint(0, 1), tgt(None if q < 0.1 else (0, rng.randint(0, 4)) if q < 0.3 else (1, rng.randrange(len(inner))))])
+            elif r < 0.8:
+                ev.append([1, rng.randrange(len(objs)), S(rng.choice(strs))])
+            elif r < 0.92:
+                ev.append([4, rng.randrange(len(inner)), S(rng.choice(strs))])
+            else:
+                ev.append([2, rng.randrange(len(objs))])
+        cases.append([19, p, inner, objs, ev])
+    dist["nested_dynamic"] = len(cases)
+    return cases
+
+
 # --------------------------------------------------------------------------
 # thorough tier: the whole 2^24 cube of the 256-colour map, real cache against
 # an independent oracle (per-channel nearest cube level + best gray), sharded
@@ -1850,6 +2018,23 @@ def show_input(c):
             {i: [(unS(n), unS(x)) for n, x in r] for i, r in c[1]}, [sh(o) for o in c[2]],
             "; ".join(("slot%d := %s" % (e[1], "sheet%d" % e[2][0] if e[2] else "None")) if e[0] == 0 else
                       ("obj%d.get_attrs(%r)" % (e[1], unS(e[2]))) if e[0] == 1 else "obj%d.style_rules" % e[1] for e in c[3]))
+    if op == 19:
+        def sh(x, inner=False):
+            return ("sheet%d" % x[1] if x[0] == 0 else "DummyStyle()" if x[0] == 1 else "DynamicStyle(%sslot%d)" % ("inner-" if inner else "", x[1]) if x[0] == 2
+                    else "merge_styles([%s])" % ", ".join(sh(y, inner) for y in x[1]))
+
+        def ev(e):
+            if e[0] == 0:
+                return "inner-slot%d := %s" % (e[1], "sheet%d" % e[2][0] if e[2] else "None")
+            if e[0] == 3:
+                return "slot%d := %s" % (e[1], "None" if not e[2] else "sheet%d" % e[2][1] if e[2][0] == 0 else "inner%d" % e[2][1])
+            if e[0] == 1:
+                return "obj%d.get_attrs(%r)" % (e[1], unS(e[2]))
+            if e[0] == 4:
+                return "inner%d.get_attrs(%r)" % (e[1], unS(e[2]))
+            return "obj%d.style_rules" % e[1]
+        return "sheets %r; inner objects %s; objects %s; events %s" % (
+            {i: [(unS(n), unS(x)) for n, x in r] for i, r in c[1]}, [sh(o, True) for o in c[2]], [sh(o) for o in c[3]], "; ".join(ev(e) for e in c[4]))
     if op == 16:
         return "fresh caches, then " + "; ".join(
             ("_EscapeCodeCache(%s)[Attrs%r]" % (DEPTHS[q[1]], tuple(dec_attrs(q[2]))) if q[0] == 0 else
@@ -1883,7 +2068,7 @@ def describe(c, a, m):
                                                       unS(m[1]) if isinstance(m, list) and len(m) == 2 and isinstance(m[1], list) else m)
     if op in (4, 7, 8, 9, 10, 11):
         return "%s(%r) impl=%r model=%r" % (OPN[op], unS(c[1]), a, m)
-    if op in (14, 15, 16, 17, 18, 20, 21):
+    if op in (14, 15, 16, 17, 18, 19, 20, 21):
         return "%s impl=%r model=%r" % (show_input(c), a, m)
     return "%s%r impl=%r model=%r" % (OPN.get(op, "?"), c[1:], a, m)
 
@@ -1951,6 +2136,7 @@ def main(tier):
     cases += gen_kernels(chk, dist)
     cases += gen_vt100_history(chk, dist)
     cases += gen_merged_dynamic(chk, dist)
+    cases += gen_nested(chk, dist)
     nm = len(cases)
     t = time.time()
     impl_results = []
@@ -2043,7 +2229,7 @@ def main(tier):
         "int(s, 16) is modelled for ASCII text (sign, 0x prefix, underscores as in CPython); non-ASCII digits/spaces are outside the model",
         "ANSI parser: texts without \\x01 (ZeroWidthEscape brackets are C18's subject); isdigit() is ASCII in the model",
         "the caches are modelled (C19_caches_transparent, C19_merged_cache_transparent, C19_memoized_swap_transparent); Style identities (id()) are distinct pool ids: reuse of an id after garbage collection is outside the model",
-        "a DynamicStyle slot returns a plain Style object or None (not another merged/dynamic style)",
+        "nested dynamic styles (op 19, Model/C19_Nested.v): an outer DynamicStyle slot returns None, a plain Style or a persistent inner object (merged/dynamic/dummy/style) whose own dynamic slots return a plain Style or None - nesting through slots is two deep; cycles are outside the model",
         "the colorsys float kernels are modelled bit for bit over Coq's primitive binary64 floats (Model/C19_Float.v; ops 20-22 compare them with the real code, thorough: every one of the 2^24 colours for both kernels); theorems about them (Proofs/C19_FloatProps.v, built and gated by this harness with coqc, outside the coqchk closure) depend on the kernel's float primitives (listed by Print Assumptions; no float axiom); for AdjustBrightness the range 'six hex digits' is proved only for the ANSI names x a lattice of bounds, otherwise it stays a hypothesis (op 15) checked on the real code",
         "brightness bounds in the cases are multiples of 1/1000 (the Python float n / 1000.0); int(float) is modelled for |x| < 2^53; ZeroDivisionError of colorsys is modelled as failure",
         "extraction maps the primitive floats to OCaml's native float with hand-written realisations in Extract/ExC19.v (cross-checked by in-Coq vm_compute evaluation of the same cases)",
